@@ -5,6 +5,7 @@ import (
 	"runtime"
 	"strconv"
 	"strings"
+	"sync"
 	"sync/atomic"
 	"time"
 
@@ -17,9 +18,57 @@ func init() { handlers["sched"] = schedH }
 // perturb returns a hook that, at every synchronisation point, yields or sleeps according to a
 // deterministic function of (seed, point id, call count).  Different seeds force different interleavings
 // of the lexer goroutine and the parser around every token hand-off.
-func perturb(seed uint64) func(int) {
+// monitor checks, on the real execution, the invariants that the protocol model's theorems rest on.
+type monitor struct {
+	mu        sync.Mutex
+	sent      int  // emits completed (point 4)
+	recv      int  // tokens received by the parser (point 2)
+	cancelAt3 bool // the lexer saw the cancellation before the select of its latest emit
+	exits     int  // lexer goroutines that reached their exit (point 8)
+	waits     int  // joins started (point 9)
+	violation string
+}
+
+func (m *monitor) event(id int, cancelled bool) {
+	m.mu.Lock()
+	defer m.mu.Unlock()
+	switch id {
+	case 2:
+		m.recv++
+	case 3:
+		m.cancelAt3 = cancelled
+	case 4:
+		m.sent++
+		if m.cancelAt3 && m.violation == "" {
+			m.violation = "delivered-after-cancel" // LTS invariant Inv / theorem no_delivery_after_cancel
+		}
+	case 8:
+		m.exits++
+	case 9:
+		m.waits++
+	}
+}
+
+// atReturn: every hand-off is a rendezvous, every joined lexer has exited (quiescent_at_return).
+func (m *monitor) atReturn() string {
+	m.mu.Lock()
+	defer m.mu.Unlock()
+	if m.violation != "" {
+		return m.violation
+	}
+	if m.sent != m.recv {
+		return fmt.Sprintf("sent=%d-received=%d", m.sent, m.recv)
+	}
+	if m.exits < m.waits || m.waits == 0 {
+		return fmt.Sprintf("joins=%d-exits=%d", m.waits, m.exits)
+	}
+	return ""
+}
+
+func perturb(seed uint64, m *monitor) func(int, bool) {
 	var n uint64
-	return func(id int) {
+	return func(id int, cancelled bool) {
+		m.event(id, cancelled)
 		k := atomic.AddUint64(&n, 1)
 		x := seed ^ (k * 0x9E3779B97F4A7C15) ^ (uint64(id) * 0xBF58476D1CE4E5B9)
 		x ^= x >> 31
@@ -107,14 +156,18 @@ func schedH(line string) string {
 		return "FAIL:goroutine-or-reader-after-return:" + hx(base)
 	}
 	for s := 1; s <= seeds; s++ {
-		h := perturb(uint64(s) * 0x2545F4914F6CDD1D)
+		m := &monitor{}
+		h := perturb(uint64(s)*0x2545F4914F6CDD1D, m)
 		parser.VerifHook = h
 		interp.VerifHook = h
 		got := run()
+		parser.VerifHook = nil
+		interp.VerifHook = nil
 		if got != base {
-			parser.VerifHook = nil
-			interp.VerifHook = nil
 			return "FAIL:schedule-dependent:seed=" + strconv.Itoa(s) + ":" + hx(base) + ":" + hx(got)
+		}
+		if v := m.atReturn(); v != "" {
+			return "FAIL:protocol-invariant:" + v + ":seed=" + strconv.Itoa(s)
 		}
 	}
 	parser.VerifHook = nil
